@@ -603,5 +603,116 @@ theorem leaf_simpleOk (F : Facts08) (G : F.Good) (F6 : Facts06) (p : PrimTy) (v 
       filterMap_enumeration, all_enumeration, Bool.and_true]
     simp [hv]
 
+/-! ### `values=` on the non-string primitives: the enumeration literals are the wire literals -/
+
+theorem leafEq_eq (v w : Val) (h : leafEq v w = true) : v = w := by
+  cases v <;> cases w <;> simp [leafEq] at h <;> simp [h]
+
+theorem enums_primFacets (F6 : Facts06) (p : PrimTy) (h : ∀ a b c d, p ≠ .unicode a b c d) (h' : ∀ n, p ≠ .enum n) :
+    (primFacets F6 p).filterMap Facet.enumVal? = [] := by
+  cases p with
+  | integer k r => exact enums_intFacets _
+  | unicode a b c d => exact absurd rfl (h a b c d)
+  | enum n => exact absurd rfl (h' n)
+  | _ => rfl
+
+theorem facetsOk_enum_prefix (lits : List Text) (fs : List Facet) (s : Text) (hfs : fs.filterMap Facet.enumVal? = []) :
+    facetsOk (lits.map Facet.enumeration ++ fs) s = ((lits.isEmpty || lits.contains s) && facetsOk fs s) := by
+  unfold facetsOk
+  rw [List.filterMap_append, filterMap_enumeration, hfs, List.append_nil, List.all_append, all_enumeration]
+  simp
+
+theorem extraVals_nonstring (A : App) (p : PrimTy) (h : (A.extraVals p).isEmpty = false) :
+    (∀ a b c d, p ≠ .unicode a b c d) ∧ (∀ n, p ≠ .enum n) := by
+  constructor
+  · intro a b c d e; subst e; simp [App.extraVals] at h
+  · intro n e; subst e; simp [App.extraVals] at h
+
+theorem rep_of_leaf (p : PrimTy) (v : Val) (hv : p.valueOk v = true) (ht : tzOk v = true) : xsdRepresentable v = true := by
+  cases v with
+  | dt x => simpa [xsdRepresentable, tzOk] using ht
+  | obj c fs => cases p <;> simp [PrimTy.valueOk] at hv
+  | list vs => cases p <;> simp [PrimTy.valueOk] at hv
+  | _ => rfl
+
+theorem norm_noWs (b : Builtin) (s : Text) (h : noWs s) : b.norm s = s := by
+  unfold Builtin.norm; split
+  · rfl
+  · exact xsdTrim_noWs s h
+
+/-- whitespace normalisation leaves the written literal alone -/
+theorem leaf_norm_id (F : Facts08) (p : PrimTy) (v : Val) (s : Text) (hv : p.valueOk v = true)
+    (hs : leafToText F p v = some s) : (builtinOf p).norm s = s := by
+  cases p with
+  | integer k r =>
+    cases v <;> simp [PrimTy.valueOk] at hv
+    simp only [leafToText, Option.some.injEq] at hs; subst hs
+    exact norm_noWs _ _ (noWs_intText _)
+  | boolean =>
+    cases v <;> simp [PrimTy.valueOk] at hv
+    rename_i b
+    simp only [leafToText, Option.some.injEq] at hs; subst hs
+    cases b <;> decide
+  | unicode a b c d => rfl
+  | date =>
+    cases v <;> simp [PrimTy.valueOk] at hv
+    simp only [leafToText, Option.some.injEq] at hs; subst hs
+    exact norm_noWs _ _ (noWs_isoDate _ hv)
+  | time =>
+    cases v <;> simp [PrimTy.valueOk] at hv
+    simp only [leafToText, Option.some.injEq] at hs; subst hs
+    exact norm_noWs _ _ (noWs_isoTime _ hv)
+  | dateTime =>
+    cases v <;> simp [PrimTy.valueOk] at hv
+    simp only [leafToText, Option.some.injEq] at hs; subst hs
+    exact norm_noWs _ _ (noWs_isoDateTime _ hv)
+  | duration =>
+    cases v <;> simp [PrimTy.valueOk] at hv
+    simp only [leafToText, Option.some.injEq] at hs; subst hs
+    exact norm_noWs _ _ (noWs_durToText F _)
+  | bytes enc =>
+    cases v <;> simp [PrimTy.valueOk] at hv
+    rename_i bs
+    have hb : bytesOk bs := hv
+    cases enc with
+    | base64 =>
+      simp only [leafToText, Option.some.injEq] at hs; subst hs
+      exact norm_noWs _ _ (noWs_of_xsdBase64Binary _ (xsdBase64Binary_b64enc bs hb))
+    | hex =>
+      simp only [leafToText, Option.some.injEq] at hs; subst hs
+      exact norm_noWs _ _ (noWs_of_xsdHexBinary _ (xsdHexBinary_hexenc bs hb))
+    | urlsafe => rfl
+  | enum names => rfl
+
+/-- a conformant leaf that is one of the declared `values` is written as a literal that passes the
+    restriction generated for its member, enumeration facets included -/
+theorem leaf_simpleOkA (A : App) (G : A.leaf.Good) (p : PrimTy) (v : Val)
+    (hv : p.valueOk v = true) (hc : leafCond A p v = true) :
+    ∃ s, leafToText A.leaf p v = some s ∧ simpleOk (builtinOf p) (primFacetsA A p) s = true := by
+  simp only [leafCond, Bool.and_eq_true, Bool.or_eq_true] at hc
+  obtain ⟨htz, hin⟩ := hc
+  obtain ⟨s, hs, hok⟩ := leaf_simpleOk A.leaf G A.facts p v hv (rep_of_leaf p v hv htz)
+  refine ⟨s, hs, ?_⟩
+  unfold primFacetsA App.enumLits
+  cases he : (A.extraVals p).isEmpty with
+  | true =>
+    simp only [List.isEmpty_iff] at he
+    rw [he]; simpa using hok
+  | false =>
+    rw [he] at hin
+    simp only [Bool.false_eq_true, false_or, List.any_eq_true] at hin
+    obtain ⟨w, hw, heq⟩ := hin
+    have := leafEq_eq v w heq
+    subst this
+    obtain ⟨h1, h2⟩ := extraVals_nonstring A p he
+    simp only [simpleOk, Bool.and_eq_true] at hok ⊢
+    refine ⟨hok.1, ?_⟩
+    rw [facetsOk_enum_prefix _ _ _ (enums_primFacets A.facts p h1 h2), hok.2, Bool.and_true, Bool.or_eq_true]
+    right
+    -- the literal of `v` is among the enumeration literals; it contains no blanks or is a string-typed base
+    have hmem : s ∈ (A.extraVals p).filterMap (leafToText A.leaf p) := List.mem_filterMap.mpr ⟨v, hw, hs⟩
+    rw [leaf_norm_id A.leaf p v s hv hs]
+    exact List.contains_iff_mem.mpr hmem
+
 end Schema
 end SpyneModel
